@@ -92,8 +92,26 @@ class C08(Prop):
     )
     budgets = {"quick": 250, "thorough": 4000}
 
+    @staticmethod
+    def _sibling_nested_binding(rng: random.Random) -> dict:
+        """Two sibling NESTED graphs share an input name and only one binds it inside: the outer spec reports the name as bound, so a call
+        supplying the required inputs is accepted and completes — the un-binding sibling receives that value like a plain sibling would."""
+        fn = gen._fn_node
+        v = rng.randint(1, 9)
+        g1 = {"name": "g1", "nodes": [fn("scale", [["k", None], ["x", None]], ["a"], {"b": "tag", "t": "scale"})], "bound": [["k", v]]}
+        g2 = {"name": "g2", "nodes": [fn("offset", [["k", None], ["u", None]], ["s"], {"b": "tag", "t": "offset"})], "bound": []}
+        top = [{"name": "g1", "kind": "graph", "inner": 0}, {"name": "g2", "kind": "graph", "inner": 1}]
+        if rng.random() < 0.5:
+            top.append(fn("third", [["k", None]], ["t"], {"b": "tag", "t": "third"}))
+        # (the binding sibling listed FIRST: which of two DIFFERENT inner bindings surfaces is the recorded finding C02-F3)
+        return {"program": [g1, g2, {"name": "root", "nodes": top, "bound": []}], "values": [["x", rng.randint(0, 3)], ["u", rng.randint(0, 3)], ["k", rng.randint(10, 19)]]}
+
     def cases(self, rng: random.Random, tier: str) -> Iterable[dict]:
         C08._variant = -1
+        for _ in range(2):      # whatever the seed
+            c = self._sibling_nested_binding(rng)
+            for runner in ("sync", "async"):
+                yield {"program": copy.deepcopy(c["program"]), "known": c["values"], "rtselect": None, "ops": {"siblings": 1}, "runner": runner}
         forced = [0.05, 0.14, 0.17, 0.18, 0.18, 0.18, 0.18, 0.18, 0.23, 0.265, 0.265, 0.275, 0.275, 0.285] * 2      # every dedicated family, whatever the seed
         while True:
             r = forced.pop() if forced else rng.random()
